@@ -11,10 +11,11 @@ Searcher: direct round-trip / exactness oracle on the implementation (no model).
 import json
 import os
 import re
+import shutil
 
 import vlib
 
-PROPS = ['Rangers.Props.C18', 'Rangers.Props.C18Gen', 'Rangers.Props.C18Aux', 'Rangers.Props.C18Sites', 'Rangers.Props.C18Size']
+PROPS = ['Rangers.Props.C18', 'Rangers.Props.C18Gen', 'Rangers.Props.C18Aux', 'Rangers.Props.C18Sites', 'Rangers.Props.C18Size', 'Rangers.Props.C18Exp']
 DRIVERS = ['C18']
 
 META = dict(
@@ -71,6 +72,11 @@ def correspond(ctx):
     for p in c.get('panics', [])[:5]:
         viol.append(dict(key='panic', desc='implementation panicked on %s: %s' % (p['op'], p['impl']),
                          replay=dict(op=p['op'], impl=p['impl'], cmd='harness/bin/c18 mode=exec "op=%s"' % p['op'])))
+    # a generated / corpus op the model driver does not understand is a broken tie, not agreement
+    # (both sides answering `bad-op` would otherwise compare equal)
+    if c.get('bad_op', 0) > 0:
+        c['ok'] = False
+        c.setdefault('errors', []).append('%d op lines answered bad-op by the model driver (generator/driver mismatch)' % c['bad_op'])
     if viol:
         c['violations'] = viol
     return [c]
@@ -89,11 +95,10 @@ def search(ctx, hints):
     cwd = ctx.scratch('c18search')
     env = dict(VERIF_SEED=str(ctx.seed), VERIF_TIER=ctx.tier, GOMEMLIMIT='8GiB')
     rc, so, se = vlib.run([binp, 'mode=search', 'n=%d' % n], cwd=cwd, env=env, timeout=_n(ctx, 300, 1500))
-    import shutil
     shutil.rmtree(cwd, ignore_errors=True)
     if rc != 0:
+        # keep what was found before the searcher died: VIOL lines are printed when found
         res['error'] = 'searcher exited %d: %s' % (rc, (se or so)[-800:])
-        return res
     leads = []
     for line in so.split('\n'):
         if line.startswith('VIOL '):
@@ -118,6 +123,27 @@ def search(ctx, hints):
             except Exception:
                 pass
     res['leads_observed_not_c18_violations'] = leads
+    res['phases'] = 'deterministic small-scope families; random oracle; history (reversed/shuffled re-execution with interleaved decimals); concurrency (8 goroutines vs sequential) - the last two are evidence, not proof'
+    if ctx.thorough() and not res.get('error'):
+        # concurrency phase again under the race detector (evidence, not proof)
+        rbin, log = vlib.go_build(ctx, vlib.HARNESS, './cmd/c18', 'c18race', race=True)
+        if not rbin:
+            res['race'] = 'race build failed: ' + log[-400:]
+        else:
+            cwd = ctx.scratch('c18race')
+            rc2, so2, se2 = vlib.run([rbin, 'mode=conc', 'n=6000'], cwd=cwd, env=dict(env, GORACE='halt_on_error=0'), timeout=1200)
+            shutil.rmtree(cwd, ignore_errors=True)
+            races = (se2 + so2).count('WARNING: DATA RACE')
+            res['race'] = dict(exit=rc2, data_races=races, label='evidence, not proof')
+            for line in so2.split('\n'):
+                m = re.match(r'VIOL (\S+) (.*?) :: (.*)$', line)
+                if m:
+                    res['violations'].append(dict(key=m.group(1), desc='%s: %s (race build)' % (m.group(2), m.group(3)),
+                                                  replay=dict(op=m.group(2), detail=m.group(3), cmd='%s mode=conc n=6000' % rbin)))
+            if races:
+                i = (se2 + so2).find('WARNING: DATA RACE')
+                res['violations'].append(dict(key='data-race', desc='race detector: %d report(s) while converting concurrently' % races,
+                                              replay=dict(report=(se2 + so2)[i:i + 1500], cmd='%s mode=conc n=6000' % rbin)))
     return res
 
 
@@ -130,7 +156,7 @@ def replay(ctx, payload):
         for b in payload['broken']:
             if b[0] == 'correspondence' and b[1].get('first'):
                 op = b[1]['first'][0]['op']
-    if not op or op.split(' ')[0] not in ('parse', 'pf', 'fmt', 'tostr', 'nodot', 'erc20', 'rocket', 'evmval', 'ft', 'stake', 'f64', 'u64', 'stakearg', 'basen', 'calldata', 'size', 'xfer'):
+    if not op or op.split(' ')[0] not in ('parse', 'pf', 'fmt', 'tostr', 'nodot', 'erc20', 'rocket', 'evmval', 'ft', 'stake', 'f64', 'u64', 'stakearg', 'basen', 'calldata', 'size', 'xfer', 'cfg'):
         return 0
     binp, log = vlib.go_build(ctx, vlib.HARNESS, './cmd/c18', 'c18')
     if not binp:
